@@ -37,10 +37,14 @@ def source_spec(i, seed):
     """Every source has unique region bytes and unique marker code, so each
     section read back is attributable to exactly one source."""
     return {
-        'version': 33,
+        # (data versions on either side of the ones that changed the file
+        # format's text encoding; glyph characters in the code)
+        'version': (33, 8, 41, 15, 33, 16)[(seed + i) % 6],
         'code': core.enc_bytes(
             b'-- source %d\nsrc%d_marker=%d\nfunction f%d() return %d end\n'
-            % (i, i, seed % 100000, i, i)),
+            % (i, i, seed % 100000, i, i) +
+            (b'g%d="\x8b\x99\xe3\x81" -- \x83\n' % i
+             if (seed + i) % 2 else b'')),
         'regions': {k: seed * 16 + j for j, k in enumerate(refcodec.REGIONS)},
         'label': {'p8_seed': seed + 7, 'png_seed': seed + 8},
     }
@@ -48,10 +52,12 @@ def source_spec(i, seed):
 
 def out_prior_spec(rng, tag):
     return {
-        'version': rng.choice([16, 29, 33]),
+        'version': rng.choice([16, 29, 33, 8, 5, 15]),
         'code': core.enc_bytes(b'-- prior %s\nprior_%s=%d\n' % (
-            tag.encode(), tag.encode(), rng.randint(1, 99999))),
-        'regions': {k: rng.randint(1, 10**9) for k in refcodec.REGIONS},
+            tag.encode(), tag.encode(), rng.randint(1, 99999)) + rng.choice(
+                [b'', b'', b'pg="\x87\x94" -- \x80\n'])),
+        'regions': {k: rng.choice(['zero'] + [rng.randint(1, 10**9)] * 5)
+                    for k in refcodec.REGIONS},
         'label': rng.choice([None, {'p8_seed': rng.randint(1, 10**6)}]),
         'png_label_seed': rng.randint(1, 10**6),
     }
@@ -93,6 +99,9 @@ def gen_assign(rng, outs, target):
     for sec in ('gfx', 'gff', 'map'):
         if a[sec][0] == 'p8' and rng.random() < 0.25:
             a[sec] = ['p8sparse']    # a .p8 that omits its all-zero sections
+    for sec in ('gfx', 'gff', 'map', 'sfx', 'music'):
+        if a[sec][0] in ('p8', 'png') and rng.random() < 0.12:
+            a[sec] = ['zero', a[sec][0]]   # a cart whose every byte is zero
     return a
 
 
@@ -137,8 +146,23 @@ def generate(rng, prop, tier, index):
                  {'target': 'a', 'assign': dict(none, lua=[second]),
                   'flags': []}]
     extra = {}
+    if rng.random() < 0.06:
+        # the same build applied to two OUTs through one arguments object
+        # (only the output name is changed in between)
+        outs = {'a': outs['a'],
+                'b': {'fmt': rng.choice(['p8', 'png']), 'prior': 'absent'}}
+        asg = gen_assign(rng, ['a', 'b'], 'a')
+        for sec in SECTIONS:
+            if asg[sec][0] == 'out':
+                asg[sec] = ['none']
+        asg[rng.choice(SECTIONS)] = ['empty']
+        steps = [{'target': 'a', 'assign': asg, 'flags': []},
+                 {'target': 'b', 'assign': asg, 'flags': [],
+                  'reuse_args': True}]
+        extra['shared_namespace'] = True
     if rng.random() < 0.35:
-        extra = {'argstyle': 'rel', 'cwd': rng.choice(['root', 'in', 'out'])}
+        extra.update({'argstyle': 'rel',
+                      'cwd': rng.choice(['root', 'in', 'out'])})
     if rng.random() < 0.3:
         extra['decoys'] = True
     if rng.random() < 0.15:
@@ -234,6 +258,16 @@ def sparse_cart():
     return _SPARSE['c']
 
 
+def zero_cart():
+    """A cart with every region all zero (which is not what an `empty`
+    sound section holds)."""
+    if 'z' not in _SPARSE:
+        _SPARSE['z'] = refcodec.cart_from_spec({
+            'version': 33, 'code': core.enc_bytes(b'zero_marker=1\n'),
+            'regions': {k: 'zero' for k in refcodec.REGIONS}})
+    return _SPARSE['z']
+
+
 _ALT = {}
 
 
@@ -271,6 +305,8 @@ def predict(prev, assign, srcs, outs_model, luafile):
             new[key] = INC_MAIN.replace(b'#include lib.lua\n', INC_LIB_LINK)
         elif a[0] == 'p8sparse':
             new[key] = sparse_cart()[key]
+        elif a[0] == 'zero':
+            new[key] = zero_cart()[key]
         elif a[0] in ('p8', 'png', 'p8odd'):
             new[key] = srcs[a[1]][key]
         elif a[0] == 'p8alt':
@@ -400,11 +436,14 @@ def execute(sc):
             else:
                 outs_model[tag] = None
         changed_any = False
+        shared_ns = None
         for si, st in enumerate(sc['steps']):
             tag = st['target']
             out_fmt = outs[tag]['fmt']
             out_rel = _out_rel(tag, outs)
             assign = st['assign']
+            if st.get('reuse_args') and si > 0 and sc.get('shared_namespace'):
+                assign = sc['steps'][si - 1]['assign']   # same object reused
             fail = st.get('fail')
             argv = list(st.get('flags') or []) + ['build', A(out_rel)]
             probe_rel = None
@@ -436,6 +475,11 @@ def execute(sc):
                     need('in/sparse.p8', lambda: refcodec.encode_p8(
                         sparse_cart(), {'omit_empty': True}))
                     argv += ['--' + sec, A('in/sparse.p8')]
+                elif a[0] == 'zero':
+                    rel = 'in/zero' + EXT[a[1]]
+                    need(rel, lambda rel=rel: refcodec.encode_any(
+                        rel, zero_cart()))
+                    argv += ['--' + sec, A(rel)]
                 elif a[0] == 'p8inc':
                     # in/incdir/art.p8 is a symbolic link to alt2/art.p8; a
                     # lib.lua sits next to each of them.  The cart is named
@@ -569,7 +613,21 @@ def execute(sc):
             rc = None
             with world.EncoderRun(write_plan) as ctl:
                 try:
-                    rc = tool.main(argv)
+                    if sc.get('shared_namespace') and hasattr(
+                            tool, '_get_argparser'):
+                        # a caller that drives the command's function itself
+                        # and uses one arguments object for several OUTs
+                        if st.get('reuse_args') and shared_ns is not None:
+                            shared_ns.filename = A(out_rel)
+                        else:
+                            shared_ns = tool._get_argparser().parse_args(
+                                args=argv)
+                        rc = shared_ns.func(shared_ns)
+                        core.bump(res['probes'], 'arguments-object-reused'
+                                  if st.get('reuse_args') else
+                                  'command-function-called-directly')
+                    else:
+                        rc = tool.main(argv)
                 except BaseException as e:
                     exc = e
             failed = exc is not None or rc not in (0, None)
@@ -664,18 +722,40 @@ def execute(sc):
                                     detail, core.dumps(assign),
                                     'existed' if had_prev else 'absent'), si)
                         else:
-                            # second opinion, as a statistic only
+                            # OUT as picotool itself reads it back
+                            rb = None
                             try:
                                 g = pfile.from_file(w.p(out_rel))
                                 pt = {k: bytes(getattr(g, k).to_bytes())
                                       for k in refcodec.REGIONS}
-                                if any(pt[k] != model[k]
-                                       for k in refcodec.REGIONS):
-                                    core.bump(res['probes'],
-                                              'picotool-readback-disagrees')
-                            except Exception:
-                                core.bump(res['probes'],
-                                          'picotool-readback-raised')
+                                pt['lua'] = b''.join(g.lua.to_lines())
+                                for k in refcodec.REGIONS:
+                                    if pt[k] != model[k]:
+                                        rb = (k, 'region differs from the '
+                                              'one the arguments name')
+                                        break
+                                if rb is None and norm_code(pt['lua']) != \
+                                        norm_code(model['code']):
+                                    rb = ('lua', 'code is %r...' %
+                                          pt['lua'][:60])
+                            except Exception as e:
+                                rb = ('load', 'raised ' +
+                                      world.describe_exc(e, w))
+                            if rb:
+                                outcome = 'readback-mismatch:' + rb[0]
+                                core.violation(
+                                    res, 'C13', 'C13:readback-mismatch:' +
+                                    rb[0],
+                                    'C13|readback|%s|%s|src=%s' % (
+                                        rb[0], out_fmt,
+                                        assign.get(rb[0], ['-'])[0]),
+                                    'step %d: `p8tool %s`: OUT read back '
+                                    'with file.from_file: %s: %s (the '
+                                    'reference reader finds OUT as '
+                                    'predicted) [assignment %s]' % (
+                                        si, w.unsubst(' '.join(argv)),
+                                        rb[0], rb[1], core.dumps(assign)),
+                                    si)
                             newm = dict(model)
                             newm['label'] = got['label'] if out_fmt == 'png' \
                                 else (got.get('label'))
